@@ -201,6 +201,8 @@ func runC03(ctx *Ctx) *Report {
 				c = newCase("rootiter")
 				c.Tree, c.Fmt, c.Alias = enc, fm, alias
 				cases = append(cases, c)
+				c.Massive = true
+				cases = append(cases, c)
 				c = newCase("rootf")
 				c.Tree, c.Format, c.Alias = enc, []string{"json", "yaml", "toml"}[i%3], alias
 				cases = append(cases, c)
